@@ -4,14 +4,16 @@
      GenerateDataModels                         --direct ? ...WithPureModule : ...WithProjectMannerModule
      GenerateDataModelsWithPureModule           one GenerateDataView per application, in sort.Strings order of the map keys
      GenerateDataModelsWithProjectMannerModule  the endpoints of the project application, in sort.Strings order
-     GenerateDataModel                          one GenerateDataView per action statement naming an application
+     GenerateDataModel                          ONE GenerateDataView for all the applications the endpoint's action statements
+                                                name (fix C15-9; before: one per statement, the last one kept)
 
    Output names are opaque (`outname`): `cmdutils.MakeFormatParser(Output).FmtOutput(...)` is the format parser of
    another component; the harness evaluates it and hands the result in.  The map `outmap` is the log of its
    assignments (a later assignment to the same name replaces the earlier one).  The class format (--class_format)
    reaches UniqueVarForAppName only as the Label of a cmdutils.Var that nothing reads: it is no input here.
    The value stored under a name is GenerateDataView(dataParam): the view `draw filt es` with
-   filt = Some (JoinAppName dataParam.App.Name) when dataParam.Epname, None otherwise. *)
+   filt = Some (the keys of viewApps) when dataParam.Epname, None otherwise; viewApps = JoinAppName of every element of
+   dataParam.Apps, or of dataParam.App alone when Apps is empty (--direct). *)
 From Coq Require Import List PArith Bool.
 Import ListNotations.
 Require Import Verif.DataModel.DmShapeTypes Verif.DataModel.DmModel.
@@ -34,17 +36,25 @@ Inductive winput :=
 | WDirect (has_ep:bool) (output:outname) (apps:list wapp)   (* has_ep = strings.Contains(Output, "%(epname)") *)
 | WProject (found:bool) (has_ep:bool) (eps:list wep).       (* found = model.GetApps()[Project] exists *)
 
-Definition outmap := list (outname * option str).
+Definition outmap := list (outname * option (list str)).
 
-Definition view_of (has_ep:bool) (a:str) : option str := if has_ep then Some a else None.
+(* GenerateDataView: viewApps (app = dataParam.App, apps = dataParam.Apps) *)
+Definition view_apps (app:str) (apps:list str) : list str := match apps with [] => [app] | _ => apps end.
+Definition view_of (has_ep:bool) (apps:list str) : option (list str) := if has_ep then Some apps else None.
 
 (* GenerateDataModelsWithPureModule: for _, appName := range appNames { outmap[outputDir] = v.GenerateDataView(dataParam) } *)
 Definition pure_module (has_ep:bool) (output:outname) (apps:list wapp) : outmap :=
-  map (fun a => (if has_ep then w_out a else output, view_of has_ep (w_name a))) apps.
+  map (fun a => (if has_ep then w_out a else output, view_of has_ep (view_apps (w_name a) []))) apps.
 
-(* GenerateDataModel: for _, stmt := range stmts { if Action && apps[...] != nil { outmap[outDir] = ... } } *)
+(* GenerateDataModel: for _, stmt := range stmts { if Action && apps[...] != nil { named = append(named, app) } };
+   if len(named) == 0 { return }; outmap[outDir] = GenerateDataView({App: named[len(named)-1], Apps: named, ...}) *)
+Definition named_apps (stmts:list wstmt) : list str :=
+  flat_map (fun s => match s with WAction (Some a) => [a] | _ => [] end) stmts.
 Definition data_model (has_ep:bool) (out:outname) (stmts:list wstmt) : outmap :=
-  flat_map (fun s => match s with WAction (Some a) => [(out, view_of has_ep a)] | _ => [] end) stmts.
+  match named_apps stmts with
+  | [] => []
+  | named => [(out, view_of has_ep (view_apps (last named []) named))]
+  end.
 
 (* GenerateDataModelsWithProjectMannerModule *)
 Definition project_manner (has_ep:bool) (eps:list wep) : outmap :=
@@ -59,7 +69,7 @@ Definition gen_models (w:winput) : option outmap :=
   end.
 
 (* the value of outmap[k] after all assignments *)
-Fixpoint wlookup (k:outname) (m:outmap) : option (option str) :=
+Fixpoint wlookup (k:outname) (m:outmap) : option (option (list str)) :=
   match m with
   | [] => None
   | (k', v) :: m' => match wlookup k m' with Some x => Some x | None => if Pos.eqb k k' then Some v else None end
